@@ -736,7 +736,7 @@ def run(ctx):
                          "(acceptance: at least one definition group)")
     # (a) acceptance
     sets = [GOOD_DEFS, BAD_DEFS, GOOD_DEFS + BAD_DEFS, BAD_DEFS + GOOD_DEFS, []] + [[d] for d in GOOD_DEFS + BAD_DEFS]
-    for _ in range(300 if quick else 6000):
+    for _ in range(600 if quick else 6000):
         sets.append(gen_defset(rng))
     ans = ctx.model.batch([{"op": "c09.accept", "strings": [env.def_tree(s) for s in ds]} for ds in sets])
     for ds, a in zip(sets, ans):
@@ -755,7 +755,7 @@ def run(ctx):
             work.append((defs, hed, ops))
     ctx.extra["exhaustive"] = {"base_objects": nbase, "max_len": maxlen, "sequences": len(work)}
     # random definition sets x annotations x sequences
-    nrand = 1200 if quick else 30000
+    nrand = 2500 if quick else 30000
     for _ in range(nrand):
         defs = gen_defset(rng)
         refd, _ = ref_accept(defs, env.takes_value_tag, env.bad_prop_tag)
@@ -765,7 +765,7 @@ def run(ctx):
         work.append((defs, hed, ops))
     histories(ctx, env, work)
     # (c) frames, (d) gathering
-    for _ in range(25 if quick else 400):
+    for _ in range(40 if quick else 400):
         defs = gen_defset(rng) if rng.random() < 0.5 else GOOD_DEFS
         refd, _ = ref_accept(defs, env.takes_value_tag, env.bad_prop_tag)
         cells = [render(gen_annotation(rng, refd, depth=2), rng) for _ in range(rng.randint(1, 5))]
